@@ -514,6 +514,12 @@ def run_generated(acc, spec, only=None):
         labels.append("gen:composite-glyph")
     if exp["pairs"]:
         labels.append("gen:pair-kerning")
+    if any(p.get("skip") for p in exp["pairs"]):
+        labels.append("gen:glyph-pair-missing-in-some-masters")
+        if exp["classes"]:
+            labels.append("gen:glyph-pair-missing-in-some-masters+class-kerning")
+    if spec.get("smooth"):
+        labels.append("gen:smooth-contours-7..13-points")
     if exp["classes"]:
         labels.append("gen:class-kerning")
     if exp["anchors"]:
@@ -743,7 +749,7 @@ def jobs(tier, seed):
         J.append(dict(kind="corpus", name="corpus:%s:%s:%s" % (cs["ds"], "opt" if cs["optimize"] else "noopt", "+".join(cs["dirs"] or [])), cs=[cs]))
     J.append(dict(kind="corpus", name="corpus:designspaceLib-documents", cs=nomasters))
     njobs = 64 if thorough else 16
-    total = 3840 if thorough else 320
+    total = 3840 if thorough else 640
     for i in range(njobs):
         J.append(dict(kind="generated", name="generated-%d" % i, n=total // njobs, seed=subseed(seed, "gen", i)))
     return J
